@@ -20,7 +20,9 @@ RULE = (
     "ResolverErrors: no exception may escape, every merged response key must denote one field with "
     "pairwise equal arguments and return type (monitor on Executor.resolve_field), and the response "
     "data must have the shape the selection sets and types determine (compared with R-EXEC when the "
-    "IR is known, type-shape walk otherwise). Non-trivial = distinct adversarial / mutated document, "
+    "IR is known, type-shape walk otherwise), including the shape the selection sets alone imply: "
+    "every unconditionally selected key present, objects exactly where a sub-selection is written. "
+    "Non-trivial = distinct adversarial / mutated document, "
     "or a valid one that was also executed."
 )
 ASSUMPTIONS = ["resolver results are of the declared types (no nulls in non-null positions) as the statement requires"]
